@@ -432,11 +432,13 @@ fn reverse_incremental_search<H: Helper, I: History>(
                     s.changes.truncate(mark);
                     return Ok(None);
                 }
-                Cmd::Move(_) => {
-                    s.refresh_line()?; // restore prompt
+                _ => {
+                    // restore the prompt, whatever ends the search: the command handed back to the
+                    // main loop may repaint nothing (a yank from an empty kill ring, a motion that
+                    // does not move, ...) and would leave the search prompt on the screen
+                    s.refresh_line()?;
                     break;
                 }
-                _ => break,
             }
         }
         success = match history.search(&search_buf, history_idx, direction)? {
